@@ -504,12 +504,14 @@ def _icv_diagnosis(data, suite, sk_a):
     return None
 
 
-def sk_seal(h, payloads, suite, sk_a, sk_e, iv, pad_extra=0):
-    """Build a protected message (reference encoder)."""
+def sk_seal(h, payloads, suite, sk_a, sk_e, iv, pad_extra=0, pad_fill=None):
+    """Build a protected message (reference encoder).  pad_fill: None (zeros) or a callable n -> n octets of Padding ("Padding MAY contain
+    any value chosen by the sender", RFC 7296 3.14)."""
     inner = enc_chain(payloads)
     first = payloads[0]['type'] if payloads else 0
     pad = (-(len(inner) + 1)) % 16 + 16 * pad_extra
-    pt = inner + b'\0' * pad + bytes([pad])
+    fill = bytes(pad_fill(pad))[:pad].ljust(pad, b'\0') if pad_fill else b'\0' * pad
+    pt = inner + fill + bytes([pad])
     ct = aes_cbc(sk_e, iv, pt)
     sk_body = iv + ct + b'\0' * suite.icv
     total = 28 + 4 + len(sk_body)
